@@ -146,6 +146,24 @@ def startProgress (stored : Option ClaimProgress) (cur : Energy) (W : Nat) : Cla
   | some p => p
   | none => ⟨cur, W⟩
 
+/-- where the claim loop starts: the start progress, advanced past the weeks beyond the last four -/
+def loopStart (p0 : ClaimProgress) (W : Nat) : ClaimProgress :=
+  if USER_MAX_CLAIM_WEEKS < W - p0.week then
+    p0.advanceMultipleWeeks (W - p0.week - USER_MAX_CLAIM_WEEKS)
+  else p0
+
+/-- how many weeks the claim loop walks -/
+def loopLen (p0 : ClaimProgress) (W : Nat) : Nat := min (W - p0.week) USER_MAX_CLAIM_WEEKS
+
+/-- the loop walks the weeks `W − len, …, W − 1`, at most four, none before the start progress -/
+theorem loop_window (p0 : ClaimProgress) (W : Nat) (h : p0.week ≤ W) :
+    (loopStart p0 W).week + loopLen p0 W = W ∧ loopLen p0 W ≤ 4 ∧ p0.week ≤ (loopStart p0 W).week := by
+  unfold loopStart loopLen
+  simp only [USER_MAX_CLAIM_WEEKS]
+  by_cases hb : 4 < W - p0.week
+  · simp only [hb, if_true, ClaimProgress.advanceMultipleWeeks_eq]; omega
+  · simp only [hb, if_false]; omega
+
 /-- what `claim_multi` does, step by step -/
 theorem claimMulti_spec {σ : Type} {rw : RewardFn σ} {g g' : St} {c c' : σ} {user W : Nat}
     {cur : Energy} {r : List (Tok × Nat)}
@@ -153,12 +171,8 @@ theorem claimMulti_spec {σ : Type} {rw : RewardFn σ} {g g' : St} {c c' : σ} {
     ∃ g1 a,
       updateUserEnergyForCurrentWeek g W cur (g.progress user) = some g1 ∧
       (startProgress (g.progress user) cur W).week ≤ W ∧
-      claimLoop rw (min (W - (startProgress (g.progress user) cur W).week) USER_MAX_CLAIM_WEEKS)
-        ⟨g1, c,
-          (if USER_MAX_CLAIM_WEEKS < W - (startProgress (g.progress user) cur W).week then
-            (startProgress (g.progress user) cur W).advanceMultipleWeeks
-              (W - (startProgress (g.progress user) cur W).week - USER_MAX_CLAIM_WEEKS)
-           else startProgress (g.progress user) cur W), []⟩ = some a ∧
+      claimLoop rw (loopLen (startProgress (g.progress user) cur W) W)
+        ⟨g1, c, loopStart (startProgress (g.progress user) cur W) W, []⟩ = some a ∧
       g' = setProgress a.g user (newOf cur W) ∧ c' = a.c ∧ r = a.rewards := by
   simp only [claimMulti, Option.bind_eq_bind, Option.bind_eq_some_iff, req_eq_some,
     Option.pure_def, Option.some.injEq, Prod.mk.injEq] at h
